@@ -93,7 +93,10 @@ def probe_pw(ctx, payload):
             vals = [w[i] for i in grp]
             if max(vals) - min(vals) > 1e-12:
                 ctx.violation("identical", "pw", payload, dict(group=grp, values=vals), model, reg)
-            if k == 2:
+            same_order = all([(p[0], p[1]) for p in teams[i]] == [(p[0], p[1]) for p in teams[grp[0]]] for i in grp)
+            if k == 2 and same_order:
+                # exactly one half only for the SAME players in the SAME seating order: a mirrored line-up sums its mu in
+                # another order, and the two totals may differ in the last bit
                 ctx.ev("two-identical-half")
                 if not (w[0] == 0.5 and w[1] == 0.5):
                     ctx.violation("two-identical-half", "pw", payload, dict(result=w), model, reg)
